@@ -43,6 +43,9 @@ class Amorph(Indicator):
             if not name.startswith("_") and value:
                 output[name] = deepcopy(value)
 
+        if self._analysis_kwargs:
+            output["args"] = deepcopy(self._analysis_kwargs)
+
         return output
 
     @staticmethod
